@@ -805,6 +805,8 @@ func (s *Server) handleRPCFormContract(stream net.Conn) error {
 		formationTxn.SiacoinInputs = formationTxn.SiacoinInputs[:len(req.RenterInputs)]
 		txnset, err := s.chain.UpdateV2TransactionSet([]types.V2Transaction{formationTxn}, req.Basis, basis)
 		if err != nil {
+			// restore our inputs so that they are released
+			formationTxn.SiacoinInputs = append(formationTxn.SiacoinInputs, hostInputs...)
 			return errorBadRequest("failed to update renter inputs from %q to %q: %v", req.Basis, basis, err)
 		}
 		formationTxn = txnset[0]
@@ -962,6 +964,8 @@ func (s *Server) handleRPCRefreshContract(stream net.Conn, partial bool) error {
 		renewalTxn.SiacoinInputs = renewalTxn.SiacoinInputs[:len(req.RenterInputs)]
 		updated, err := s.chain.UpdateV2TransactionSet([]types.V2Transaction{renewalTxn}, req.Basis, basis)
 		if err != nil {
+			// restore our inputs so that they are released
+			renewalTxn.SiacoinInputs = append(renewalTxn.SiacoinInputs, hostInputs...)
 			return errorBadRequest("failed to update renter inputs from %q to %q: %v", req.Basis, basis, err)
 		}
 		renewalTxn = updated[0]
@@ -1143,6 +1147,8 @@ func (s *Server) handleRPCRenewContract(stream net.Conn) error {
 		renewalTxn.SiacoinInputs = renewalTxn.SiacoinInputs[:len(req.RenterInputs)]
 		updated, err := s.chain.UpdateV2TransactionSet([]types.V2Transaction{renewalTxn}, req.Basis, basis)
 		if err != nil {
+			// restore our inputs so that they are released
+			renewalTxn.SiacoinInputs = append(renewalTxn.SiacoinInputs, hostInputs...)
 			return errorBadRequest("failed to update renter inputs from %q to %q: %v", req.Basis, basis, err)
 		}
 		renewalTxn = updated[0]
